@@ -1161,6 +1161,24 @@ class C17(Prop):
                             # learn whether and where IT fails — a context may only describe a failure inside the labelled parser
                             lines.append(case_line(f'd{n}x', ('lazy', i_), inp, kind=kind))
                         n += 1
+        # as_context also describes the SECONDARY errors emitted inside the labelled parser (`validate`, a recovery that succeeds):
+        # bodies that emit and leave no pending error behind (built from parsers that give no hint on success), under an
+        # as_context label 2 — every user error of the decorated run must carry that context (ids `e…`)
+        A_, B_ = ('just', [gen.A]), ('just', [gen.B])
+        bodies = [('validate', 'always', 5, 1, A_), ('then', ('validate', 'always', 5, 1, ('any',)), B_),
+                  ('then', A_, ('validate', 'always', 5, 1, ('any',))), ('validate', ('tokis', gen.A), 6, 2, ('any',)),
+                  ('label', 1, True, ('validate', 'always', 5, 1, ('oneof', [gen.A, gen.B]))),
+                  ('then', ('validate', 'always', 5, 1, A_), ('validate', 'always', 6, 1, ('any',))),
+                  ('maperr', 3, ('validate', 'always', 5, 1, A_)),
+                  ('collect', 'vec', ('rep', ('validate', 'always', 5, 1, A_), 1, 2))]
+        for body in bodies:
+            lb = ('label', 2, True, body)
+            for d in [lb, ('then', lb, ('ornot', A_)), ('then', lb, B_), ('or', ('then', lb, B_), ('just', [gen.A, gen.A])),
+                      ('then', A_, lb), ('collect', 'vec', ('rep', lb, 0, None)), ('label', 1, False, lb)]:
+                kind = 'str' if n % 2 == 0 else 'slice'
+                lines.append(case_line(f'e{n}p', d, inp, kind=kind))
+                lines.append(case_line(f'e{n}c', erase_deco(d), inp, kind=kind))
+                n += 1
         return lines
 
     def group_of(self, line):
@@ -1200,6 +1218,13 @@ class C17(Prop):
                             pred = False
                             why = (f'context {c} attached to an error at {pe["start"]}..{pe["end"]}: the context span does not run from the '
                                    f'labelled parser\'s start to this failure (stale context of an abandoned alternative?)')
+            if pred and cid.startswith('e') and a['kind'] == 'R':
+                for e in a['errs']:
+                    pe = parse_err(e)
+                    if pe and 'custom' in pe and 'l2@' not in (pe['ctx'] or ''):
+                        pred = False
+                        why = (f'the user error {e} was emitted inside a parser labelled 2 with as_context, but does not carry that '
+                               f'context (as_context describes the secondary errors of its parser too)')
             # … and it may only be attached to an error that stems from a failure INSIDE the labelled parser: in the shapes where
             # that parser starts at offset 0 it is also run alone; a context on the final error requires that the parser alone
             # fails, at the very position of that error
